@@ -14,8 +14,10 @@
 (* Every step is judged with the PROPERTY-layer operators of GraphLife     *)
 (* (PropOutcome / PropFreed on the model state): the twin must agree with  *)
 (* the model (else MACHINERY - the model of torch is wrong), torchjd must  *)
-(* agree with the model (else REJECT naming the clause).  The episode ends *)
-(* at its first failing call.                                              *)
+(* agree with the model (else REJECT naming the clause; nodes kept alive    *)
+(* by mtl_backward that all lie on parameter-only branches of the heads -   *)
+(* GraphLife!ParamOnlySaving - get a clause of their own).  The episode     *)
+(* ends at its first failing call.                                         *)
 (***************************************************************************)
 EXTENDS GraphLife, IOUtils, TLCExt
 
@@ -66,7 +68,10 @@ Clause(o) ==
     THEN (IF ExpOut = "ok" THEN "call_fails_where_torch_autograd_succeeds"
           ELSE "call_succeeds_where_torch_autograd_fails")
     ELSE IF C.retain THEN "retain_graph_true_but_nodes_were_freed"
-    ELSE IF Range(o.freed) \subseteq ExpObs THEN "graph_not_freed_as_torch_autograd_backward_would"
+    ELSE IF Range(o.freed) \subseteq ExpObs
+         THEN (IF C.fn = "M" /\ (ExpObs \ Range(o.freed)) \subseteq ParamOnlySaving(S)
+               THEN "parameter_only_branch_not_freed_as_torch_autograd_backward_would"
+               ELSE "graph_not_freed_as_torch_autograd_backward_would")
     ELSE "nodes_freed_that_torch_autograd_backward_keeps"
 
 \* implementation layer: the sweeps torchjd issued are today's plan (DRIFT otherwise)
